@@ -95,6 +95,7 @@ fn main() {
         "C05" => dispatch(checks::c05::C05, tier, seed, replay),
         "C06" => dispatch(checks::c06::C06, tier, seed, replay),
         "C07" => dispatch(checks::c07::C07, tier, seed, replay),
+        "C08" => dispatch(checks::c08::C08, tier, seed, replay),
         "C09" => dispatch(checks::c09::C09, tier, seed, replay),
         "C10" => dispatch(checks::c10::C10, tier, seed, replay),
         "C11" => dispatch(checks::c11::C11, tier, seed, replay),
